@@ -7,6 +7,19 @@ from collections import deque
 logger = logging.getLogger(__name__)
 
 
+def _reference_base_follows(cigartuples, int i):
+    """
+    Whether the first operation behind cigartuples[i] that consumes the reference is a
+    match or a deletion (and not a reference skip, or missing because the alignment ends).
+    """
+    for cigar_op, length in cigartuples[i + 1:]:
+        if cigar_op in (0, 7, 8, 2):
+            return True
+        if cigar_op == 3:
+            return False
+    return False
+
+
 def _iterate_cigar(variants, int j, bam_read, cigartuples):
     """
     Iterate over the CIGAR of the given bam_read and variants[j:] in lockstep.
@@ -50,7 +63,10 @@ def _iterate_cigar(variants, int j, bam_read, cigartuples):
             ref_pos += length
         elif cigar_op == 1:  # I operator (insertion)
             # TODO it should work to *not* handle the variant here, but at the next M or D region
-            if j < n and v_position == ref_pos:
+            # (The variant is handled here only if the read goes on at its position: behind an
+            # insertion that is followed by a reference skip or by the end of the alignment, the
+            # variant is not overlapped by the read.)
+            if j < n and v_position == ref_pos and _reference_base_follows(cigartuples, i):
                 yield (j, i, 0, query_pos)
                 j += 1
                 if j < n:
